@@ -253,8 +253,15 @@ LOOP:
 			if offset > hw {
 				break LOOP
 			}
+			// Messages with no key are always retained, so there is nothing
+			// to track for them. They must not be tracked under the empty
+			// string since that is the entry of messages with an empty key.
+			key := ms.Message().Key()
+			if key == nil {
+				continue
+			}
 			curr, loaded := keyOffsets.LoadOrStore(
-				string(ms.Message().Key()), &keyOffset{offset: offset})
+				string(key), &keyOffset{offset: offset})
 			if loaded {
 				curr.(*keyOffset).set(offset)
 			}
